@@ -273,6 +273,7 @@ def core_shard(seed: int, shard: int, n: int, opts: dict) -> dict:
         if nontrivial:
             stats["nontrivial"].add(h)
         for pid in wanted:
+            props.set_case(c)
             for f in getattr(props, "oracle_" + pid)(c, real, model):
                 failures.append({"property": pid, "case": c, "xd": real["xd"], "what": f,
                                  "real": {m: real[m] for m in engine.MODES}})
